@@ -1,5 +1,83 @@
-"""R05.4 - totality of the parse loops (built in tier B)."""
+"""R05.4 - totality of the parse loops: finite abstract-state fixpoint at the loop header (escape flags, Option
+variants, emptiness of the parallel vectors), then every exit of the loop is followed to the function's end."""
+import re
+
+from .. import facts, absint, forms, cfg as cfgmod, effects
+from . import common as C
+
+
+def parser_summary(w, fn):
+    b = C.body(w, fn)
+    cf = cfgmod.cfg_of(b)
+    chars_next = [bb for bb, t in cfgmod.calls(b) if (cfgmod.callee(t) or "").endswith("Chars as core::iter::traits::iterator::Iterator>::next")]
+    if len(chars_next) != 1:
+        raise C.AnchorLost("expected one chars() loop in %s" % fn)
+    h = chars_next[0]
+    it = absint.Interp(w, b, models=effects.EXTRA_MODELS, summaries=C.summaries(w))
+    pre = [o for o in it.run(0, stop=[h]) if o.kind == "stop"]
+    early = [o for o in it.run(0, stop=[h]) if o.kind != "stop"]
+    if not pre:
+        raise C.AnchorLost("character loop of %s not reachable" % fn)
+
+    def keep(p):
+        # booleans, Option-typed locals, and the emptiness flags of vectors/strings
+        if p[-1] == ("f", "<empty?>"):
+            return True
+        if len(p) == 1 and p[0][0] == "L":
+            tk = b.locals[p[0][1]]["tk"]
+            ty = b.locals[p[0][1]]["ty"]
+            return (tk == "bool" or ty.startswith("std::option::Option<std::string::String")) and p[0][1] in b.names()
+        return False
+    H0 = pre[0]
+    env0 = {p: v for p, v in H0.env.items() if keep(p) or (len(p) == 1 and p[0][0] == "L")}
+    states, results = absint.header_fixpoint(it, h, H0.env, H0.cons, max_states=400, trace=(), keep=keep)
+    outs = early + [o for env, os_ in results for o in os_]
+    return b, it, h, states, outs
+
+
+def emptiness(it, o, path):
+    v = it.resolve(o, it._read(o, path + (("f", "<empty?>"),)))
+    return v[1] if v[0] == "b" else None
 
 
 def run(chk, w):
-    return
+    chk.rule("R05.4", "no unwrap-on-None / explicit panic reachable in the parse loops; a successful parse leaves at least one character")
+    nonempty_ok = {}
+    for upd in ("update_raw", "update_tokenized", "update_partial_annotation"):
+        parser = C.find_parser(w, C.S + "::" + upd)
+        b, it, h, states, outs = parser_summary(w, parser)
+        chk.fn(parser)
+        short = parser.split("::")[-1]
+        # the char_types parameter: the `&mut Vec<u8>` parameter
+        ct = [i for i in range(1, b.arg_count + 1) if b.locals[i]["ty"] == "&mut std::vec::Vec<u8>"]
+        panics = [o for o in outs if o.kind == "panic" and not str(o.info).startswith("assert:")]
+        chk.ob("R05.4", "%s:no-unwrap-panic" % short, not panics,
+               "%s can reach `%s` (abstract header states explored: %d): some input makes the parser panic instead of returning an error" % (parser, panics[0].info if panics else "", len(states)),
+               site=C.site(b, panics[0].bb) if panics else C.site(b), sample={"parser": short, "header_states": len(states), "exits": len(outs)})
+        oks = [o for o in outs if o.kind == "return" and effects.ret_class(o.value_at((("L", 0),))) == "Ok"]
+        bad = [o for o in oks if ct and emptiness(it, o, (("A", ct[0]),)) is not False]
+        nonempty_ok[parser] = bool(oks) and not bad and bool(ct)
+        why = ""
+        if bad:
+            o = bad[0]
+            flags = {b.names().get(p[0][1], "_%d" % p[0][1]): v[1] for p, v in o.env.items() if len(p) == 1 and p[0][0] == "L" and v[0] == "b" and p[0][1] in b.names()}
+            why = " (abstract exit state: %s)" % flags
+        chk.ob("R05.4", "%s:ok-implies-nonempty" % short, nonempty_ok[parser],
+               "%s can return Ok while no character has been stored%s: the sentence would have zero characters, and the constructors divide by char_types.len()" % (parser, why),
+               site=C.site(b), sample={"parser": short, "ok_exits": len(oks), "possibly_empty": len(bad)})
+        chk.floor("R05.4", "%s header states" % short, len(states), 2)
+    # callers: every division by a vector length divides by the parser's char_types
+    n = 0
+    for name in ("from_tokenized", "from_partial_annotation", "update_tokenized", "update_partial_annotation", "from_raw", "update_raw"):
+        fn = C.S + "::" + name
+        b = C.body(w, fn)
+        it = absint.Interp(w, b, models=effects.EXTRA_MODELS, summaries=C.summaries(w))
+        outs = it.run(0)
+        divs = [o for o in outs if o.kind == "panic" and "DivisionByZero" in str(o.info)]
+        parsers = [c for _, c, _ in C.local_callees(w, b) if c in nonempty_ok]
+        for o in divs:
+            n += 1
+            ok = bool(parsers) and all(nonempty_ok[p] for p in parsers)
+            chk.ob("R05.4", "%s:division-by-char-count" % name, ok,
+                   "%s divides by the number of characters, which can be zero because its parser %s may succeed without storing a character" % (fn, parsers), site=C.site(b, o.bb))
+    chk.floor("R05.4", "divisions by the character count", n, 4)
